@@ -29,21 +29,21 @@ type Source struct {
 	// Yield is the scheduling seam: called at the start of every interaction.
 	Yield func(what string)
 
-	mu       sync.Mutex
-	q        []Packet
-	unblock  bool
-	closed   bool
-	wake     chan struct{}
-	recv     uint64
-	dropped  uint64
-	Consumed []Packet // packets handed to the capture, in order
-	InWindow, InWindowV6 int // packets consumed between a lock request and its unlock request
+	mu                   sync.Mutex
+	q                    []Packet
+	unblock              bool
+	closed               bool
+	wake                 chan struct{}
+	recv                 uint64
+	dropped              uint64
+	Consumed             []Packet // packets handed to the capture, in order
+	InWindow, InWindowV6 int      // packets consumed between a lock request and its unlock request
 	// WindowBytes: per lock cycle (from one unlock request to the next), the bytes the packets
 	// consumed in it would occupy in the local buffer (endpoint hash + 8 bytes per element)
 	WindowBytes []int
 	NextCalls   int
-	Unblocks  int
-	Closed    bool
+	Unblocks    int
+	Closed      bool
 }
 
 // NewSource creates a source.
@@ -177,7 +177,10 @@ func (s *Source) NewPacket() capture.Packet { notModelled(); return nil }
 func (s *Source) NextPacket(capture.Packet) (capture.Packet, error) { notModelled(); return nil, nil }
 
 // NextPayload is not modelled.
-func (s *Source) NextPayload([]byte) ([]byte, byte, uint32, error) { notModelled(); return nil, 0, 0, nil }
+func (s *Source) NextPayload([]byte) ([]byte, byte, uint32, error) {
+	notModelled()
+	return nil, 0, 0, nil
+}
 
 // NextIPPacket is not modelled.
 func (s *Source) NextIPPacket(capture.IPLayer) (capture.IPLayer, capture.PacketType, uint32, error) {
